@@ -423,6 +423,11 @@ def main():
     except Broken as e:
         log('ANALYSIS-BROKEN %s' % e)
         return 2
+    except Exception as e:  # a crash of the machinery is never a verdict
+        import traceback
+        log('ANALYSIS-BROKEN internal error: %s' % ''.join(traceback.format_exception_only(type(e), e)).strip()[:300])
+        traceback.print_exc(file=sys.stderr)
+        return 2
     finally:
         shutil.rmtree(scratch, ignore_errors=True)
 
